@@ -183,6 +183,8 @@ func resetCaches() {
 	atomUnsigned = map[string]bool{}
 	initFuncs = nil
 	regCache = nil
+	factoryCache = nil
+	inlineCache = map[inlineKey]inlineRes{}
 	reachEffCache = map[string]map[*ssaFunc]bool{}
 	sentinelCache = map[*ssa.Global]int{}
 }
